@@ -138,7 +138,8 @@ def check_via_scan_path(lang, case, text):
     from codelimit.common.Scanner import scan_path
 
     rel = f"pkg/prog.{tree.EXT[lang]}"
-    content = bytes.fromhex(case["bytes_hex"]) if "bytes_hex" in case else text
+    content = bytes.fromhex(case["bytes_hex"]) if "bytes_hex" in case else text.encode("utf-8", "surrogatepass")
+    text = M.decode_like_tool(content)  # the reader opens files in text mode: CR and CRLF arrive as LF
     with tree.temp_tree({rel: content}) as root:
         r = call_sut(scan_path, root)
         if r[0] == "exc":
